@@ -92,6 +92,8 @@ inline void outcome(uint64_t h){ C().distinct.insert(h); }
 inline void outcome(const std::string &s){ C().distinct.insert(fnv(s)); }
 inline void guard(const char *name,uint64_t n=1){ C().guards[name]+=n; }
 inline void sample(const std::string &json_fragment,size_t max=6){ if(C().samples.size()<max) C().samples.push_back(json_fragment); }
+// sample the cases number 0, stride, 2*stride, ... of a stream (keeps samples spread over the enumeration)
+inline bool sample_tick(uint64_t &counter,uint64_t stride){ return (counter++ % stride)==0; }
 inline void assume(const std::string &s){ for(auto &a:C().assumptions) if(a==s) return; C().assumptions.push_back(s); }
 inline void announce(const std::string &s){ if(C().announce){ size_t n=std::min<size_t>(s.size(),4000); memcpy(C().announce+8,s.data(),n); C().announce[8+n]=0; } }
 inline void announce(const char *s,size_t n){ if(C().announce){ n=std::min<size_t>(n,4000); memcpy(C().announce+8,s,n); C().announce[8+n]=0; } }
